@@ -57,11 +57,12 @@ theorem clear_ok {st st' : State} (h : SInv st) (c : Var) (he : exec' st (.clear
         if l ∈ (st.nodes c).items.flatMap (Item.dtorOrder c.k) then none else st.mem l := by
       intro n' l; simp only [setNode_mem, State.dtorItems, dtorLocs_mem]
     constructor
-    · refine node_local h c [] ((st.nodes c).items.reverse ++ (st.nodes c).free) ?_ ?_ ?_ ?_ ?_ ?_ ?_ ?_ ?_
+    · refine node_local h c [] ((st.nodes c).items.reverse ++ (st.nodes c).free) ?_ ?_ ?_ ?_ ?_ ?_ ?_ ?_ ?_ ?_
       · simp only [State.dtorItems, setNode_nodes, dtorLocs_nodes]
       · simp only [State.dtorItems, setNode_arrs, dtorLocs_arrs]
       · simp only [State.dtorItems, setNode_blk, dtorLocs_blk]
       · simp only [State.dtorItems, setNode_next, dtorLocs_next]
+      · simp only [State.dtorItems, setNode_per, dtorLocs_per]
       · rw [List.nil_append]
         exact ((List.reverse_perm _).append_right _).nodup_iff.mpr (h.slots_nodup c)
       · intro it; simp only [List.nil_append, List.mem_append, List.mem_reverse]
@@ -105,7 +106,8 @@ theorem destroy_inv {st st' : State} (h : SInv st) (c : Var)
       else if l ∈ (st.nodes c).items.flatMap (Item.dtorOrder c.k) then none else st.mem l)
     (hblk1 : ∀ b, owns st (.node c) b → st'.blk b = none)
     (hblk2 : ∀ b, ¬ owns st (.node c) b → st'.blk b = st.blk b)
-    (hnext : st'.next = st.next) (harrs : st'.arrs = st.arrs) (hnodes : st'.nodes = upd st.nodes c {}) :
+    (hnext : st'.next = st.next) (harrs : st'.arrs = st.arrs) (hnodes : st'.nodes = upd st.nodes c {})
+    (hper : st'.per = st.per) :
     SInv st' := by
   have hc : st'.nodes c = {} := by rw [hnodes]; exact upd_same _ _ _
   have ho : ∀ c', c' ≠ c → st'.nodes c' = st.nodes c' := by
@@ -166,7 +168,7 @@ theorem destroy_inv {st st' : State} (h : SInv st) (c : Var)
   · intro c' it hi
     by_cases hc' : c' = c
     · subst hc'; rw [hc] at hi; cases hi
-    · rw [ho c' hc'] at hi ⊢; exact h.slots_in c' it hi
+    · rw [ho c' hc'] at hi ⊢; rw [hper]; exact h.slots_in c' it hi
   · intro c'
     by_cases hc' : c' = c
     · subst hc'; rw [hc]; exact List.nodup_nil
@@ -181,7 +183,7 @@ theorem destroy_inv {st st' : State} (h : SInv st) (c : Var)
     by_cases hc' : c' = c
     · subst hc'; rw [hc] at hb; cases hb
     · rw [ho c' hc'] at hb
-      rw [hkeep (.node c') b (Or.inl hb) (by simp [hc'])]
+      rw [hkeep (.node c') b (Or.inl hb) (by simp [hc']), hper]
       exact h.blocks_blk c' b hb
   · intro c' d hd
     by_cases hc' : c' = c
@@ -253,6 +255,7 @@ theorem destroy_inv {st st' : State} (h : SInv st) (c : Var)
 /-- the part of the destructor after the hash table has been freed (s1 = state after that) -/
 theorem destroy_core {st s1 : State} (h : SInv st) (c : Var) (hA : (st.nodes c).alive = true)
     (hm1 : s1.mem = st.mem) (hn1 : s1.next = st.next) (hnodes1 : s1.nodes = st.nodes) (harrs1 : s1.arrs = st.arrs)
+    (hp1 : s1.per = st.per)
     (hb1 : ∀ b, (st.nodes c).data = some b → s1.blk b = none)
     (hb2 : ∀ b, (st.nodes c).data ≠ some b → s1.blk b = st.blk b)
     (hT1 : Trace st s1) :
@@ -279,6 +282,7 @@ theorem destroy_core {st s1 : State} (h : SInv st) (c : Var) (hA : (st.nodes c).
     · simp only [setNode_next, dtorLocs_next, freeBlocks_next, State.dtorItems, hn1]
     · simp only [setNode_arrs, dtorLocs_arrs, freeBlocks_arrs, State.dtorItems, harrs1]
     · simp only [setNode_nodes, dtorLocs_nodes, freeBlocks_nodes, State.dtorItems, hnodes1]
+    · simp only [setNode_per, dtorLocs_per, freeBlocks_per, State.dtorItems, hp1]
   · have hT2 : Trace s1 (s1.dtorItems c.k (st.nodes c).items) := by
       apply trace_dtorLocs s1 _ (allLocs_nodup _ _ (items_nodup h c))
       intro l hl
@@ -287,7 +291,7 @@ theorem destroy_core {st s1 : State} (h : SInv st) (c : Var) (hA : (st.nodes c).
       exact h.items_live c it f hit hf
     have hT3 : Trace (s1.dtorItems c.k (st.nodes c).items)
         ((s1.dtorItems c.k (st.nodes c).items).freeBlocks (st.nodes c).blocks) := by
-      apply trace_freeBlocks _ _ 4 (h.blocks_nodup c)
+      apply trace_freeBlocks _ _ (st.per.f c.k) (h.blocks_nodup c)
       · intro b hb
         simp only [State.dtorItems, dtorLocs_blk]
         rw [hb2 b (fun e => h.data_notin c b e hb)]
@@ -340,11 +344,11 @@ theorem destroy_ok {st st' : State} (h : SInv st) (c : Var) (he : exec' st (.des
     subst he
     cases hd : (st.nodes c).data with
     | none =>
-      refine destroy_core h c hA rfl rfl rfl rfl ?_ ?_ (Trace.refl st)
+      refine destroy_core h c hA rfl rfl rfl rfl rfl ?_ ?_ (Trace.refl st)
       · intro b hb; rw [hd] at hb; cases hb
       · intro b _; rfl
     | some d =>
-      refine destroy_core (s1 := st.freeBlk d) h c hA rfl rfl rfl rfl ?_ ?_ ?_
+      refine destroy_core (s1 := st.freeBlk d) h c hA rfl rfl rfl rfl rfl ?_ ?_ ?_
       · intro b hb
         rw [hd] at hb; cases hb
         simp only [freeBlk_blk, upd_same]
